@@ -220,6 +220,7 @@ class World:
         self.blocked = False
         self.ge_count = 0
         self.ctx_stack = []
+        self.cur_ev = []     # events being dispatched (innermost last); read by handlers declared without `event`
         self.side = {'expect': [], 'firectx': {}, 'parent': {}, 'ftime': {}, 'timer_ev': [], 'wbound': {},
                      'treechk': [], 'optimes': [], 'gens': {}, 'callstart': {}, 'stops': [], 'tfires': [],
                      'dtime': {}, 'droot': {}, 'froot': {}, 'foreign': [], 'moves': [], 'qlen_after': [], 'nreg': 0,
@@ -379,6 +380,9 @@ class World:
         prog = self.sc['progs'][h['prog']]
         if not is_gen(prog):
             def body(self, event, *args, **kwargs):
+                if noev:
+                    # declared without an `event` parameter (see below): the event object comes from the dispatch in progress
+                    event = world.cur_ev[-1]
                 world.emit(f'I {event._vid} {hid} 0')
                 if getattr(event, '_disp_root', None) is not None and self.root is not event._disp_root:
                     world.side['foreign'].append((len(world.log) - 1, event._vid, hid))
@@ -431,11 +435,22 @@ class World:
                             return
 
             def body(self, event, *args, **kwargs):
+                if noev:
+                    event = world.cur_ev[-1]
                 world.emit(f'I {event._vid} {hid} 0')
                 g = gen(self, event)
                 world.new_gen(g, ('user', event._vid, hid))
                 world.emit(f'O {event._vid} {hid}')
                 return g
+        # a handler marked `noev` is declared the way users write handlers that do not want the event object:
+        # `def h(self, *args, **kwargs)` (handler() then sets f.event = False and the dispatcher passes only the event's
+        # arguments); it performs the same program on the event being dispatched, which it knows from elsewhere
+        noev = bool(h.get('noev'))
+        if noev:
+            inner = body
+
+            def body(self, *args, **kwargs):
+                return inner(self, None, *args, **kwargs)
         body.__name__ = f'h{hid}'
         kw = {'priority': h.get('prio', 0)}
         if h.get('chan') is not None:
@@ -574,6 +589,13 @@ class World:
             world.side['running_at'][len(world.log)] = bool(self._running)
             world.emit(f'D {event._vid}')
             event._disp_root = self
+            world.cur_ev.append(event)
+            try:
+                return _dispatch_inner(self, event, channels, remaining)
+            finally:
+                world.cur_ev.pop()
+
+        def _dispatch_inner(self, event, channels, remaining):
             if event.name == 'generate_events' and self._running and not event.cancelled:
                 now = world.clock * TICK
                 due = [i for i, t in enumerate(world.timers) if t is not None and t.root is self and t.parent is not t
